@@ -81,7 +81,7 @@ def run_worker(pid, shard, tmpdir, idx, timeout):
     op = os.path.join(tmpdir, f'out{idx}.json')
     with open(sp, 'w') as f:
         json.dump(shard, f)
-    cmd = [sys.executable, '-X', 'faulthandler', '-m', 'rv.worker', pid, sp, op]
+    cmd = [sys.executable, *shard.get('pyflags', []), '-X', 'faulthandler', '-m', 'rv.worker', pid, sp, op]
     t0 = time.time()
     try:
         p = subprocess.run(cmd, cwd=HERE, capture_output=True, text=True, timeout=timeout)
@@ -188,12 +188,22 @@ def main(argv=None):
         return replay(pid, mod, a.replay, a.tier, seed)
 
     shards = mod.plan(a.tier, seed)
+    n_planned = len(shards)
+    # process-environment variants: the first shard of the plan (or the ones the module names) runs again in an
+    # interpreter started with -OO (asserts and docstrings stripped) and once more with DEBUG logging switched on
+    # for every logger; same cases, same monitors -- a property must not depend on interpreter flags or log level
+    if os.environ.get('RV_ENV_VARIANTS', '1') != '0':
+        for j in getattr(mod, 'ENV_VARIANT_SHARDS', [0]):
+            if j < n_planned:
+                shards = [*shards, dict(shards[j], variant_of=j, env_variant='python -OO', pyflags=['-OO']),
+                          dict(shards[j], variant_of=j, env_variant='logging DEBUG')]
     timeout = getattr(mod, 'TIMEOUT_S', {}).get(a.tier, 1800 if a.tier == 'quick' else 4 * 3600)
     tmpdir = tempfile.mkdtemp(prefix=f'rv-{pid}-')
     try:
         with ThreadPoolExecutor(max_workers=MAX_PROCS) as ex:
             futs = [
-                ex.submit(run_worker, pid, dict(sh, tier=a.tier, seed=seed, index=i), tmpdir, i, timeout)
+                ex.submit(run_worker, pid, dict(sh, tier=a.tier, seed=seed, index=sh.get('variant_of', i)),
+                          tmpdir, i, timeout)
                 for i, sh in enumerate(shards)
             ]
             reports = [f.result() for f in futs]
@@ -244,7 +254,11 @@ def main(argv=None):
         'counters': dict(m['counters']),
         'max_observed_deviation': m['maxdev'],
         'trivial_cases': m['trivial'],
-        'shards': len(shards),
+        'shards': n_planned,
+        'environment_variant_shards': [
+            {'variant': sh['env_variant'], 'of_shard': sh['variant_of'],
+             'evaluations': r.get('evaluations', 0), 'violations': r.get('n_violations', 0)}
+            for sh, r in zip(shards, reports, strict=True) if sh.get('env_variant')],
         'violation_kinds': dict(m['viol_kinds']),
         'known_findings_matched': {k: len(v) for k, v in known_hits.items()},
         'inconclusive_reasons': m['inconclusive'],
@@ -326,7 +340,17 @@ def replay(pid, mod, path, tier, seed):
     v = rec['violation']
     shard = v.get('shard') or {}
     ctx = Ctx(pid, shard.get('tier', tier), shard.get('seed', seed), shard)
-    if hasattr(mod, 'replay'):
+    if shard.get('env_variant'):
+        # the witness needs the process environment of its shard (interpreter flags, log level): re-run it in
+        # a worker process started the same way
+        tmpdir = tempfile.mkdtemp(prefix=f'rv-replay-{pid}-')
+        try:
+            r = run_worker(pid, shard, tmpdir, 0, 4 * 3600)
+        finally:
+            shutil.rmtree(tmpdir, ignore_errors=True)
+        ctx.violations = [x for x in r.get('violations', []) if x['kind'] == v['kind']]
+        ctx.inconclusive = list(r.get('inconclusive', []))
+    elif hasattr(mod, 'replay'):
         mod.replay(v, ctx)
     else:
         # cases are a deterministic function of (seed, shard): re-run the shard
